@@ -1,6 +1,7 @@
 pub mod c07;
 pub mod c16;
 pub mod c18;
+pub mod c19;
 pub mod c20;
 
 use crate::core::Tier;
@@ -10,6 +11,7 @@ pub fn run(id: &str, tier: Tier) -> Option<i32> {
         "C07" => c07::run(tier),
         "C16" => c16::run(tier),
         "C18" => c18::run(tier),
+        "C19" => c19::run(tier),
         "C20" => c20::run(tier),
         _ => return None,
     })
@@ -25,6 +27,7 @@ pub fn replay(property: &str, part: &str, case: &serde_json::Value) -> Option<Re
         ("C16", "tables") => replay_part(&c16::Tables, case, 1),
         ("C18", "histories") => replay_part(&c18::Histories, case, 1),
         ("C20", "histories") => replay_part(&c20::Histories, case, 1),
+        ("C19", "histories") => replay_part(&c19::Histories, case, 5),
         _ => return None,
     })
 }
